@@ -88,7 +88,163 @@ def _sig_diff(a, b):
         return False, 'diff-error: %s' % e, ''
 
 
-def observe(rec, start_sig, names_idx=0, split='single', with_evolver=True):
+def fresh_oracle(rig, final_sig):
+    """Create the models of `final_sig` from scratch with Django's own schema
+    editor in a new database; returns (schema projection, available, why)."""
+    from django.db import connection
+    from .. import modelgen, rig as R
+    from ..dbproj import project_db
+    from django_evolution.signature import ModelSignature
+    names = rig.names
+    path = R._newpath('fresh')
+    try:
+        models = modelgen.build_models(final_sig, names)
+    except Exception as e:
+        rig.restore_models()
+        return None, False, 'models not renderable: %s: %s' % (type(e).__name__, e)
+    try:
+        R.use_db(path)
+        try:
+            with connection.schema_editor() as editor:
+                for mn in sorted(models):
+                    editor.create_model(models[mn])
+        except Exception as e:
+            return None, False, 'django cannot create the models: %s: %s' % (type(e).__name__, e)
+        sigs = {mn: ModelSignature.from_model(m) for mn, m in models.items()}
+        R.close_db()
+        proj = project_db(path, include=rig.app_tables)
+        return {'proj': proj, 'sigs': sigs}, True, ''
+    finally:
+        R.close_db()
+        try:
+            os.remove(path)
+        except OSError:
+            pass
+        rig.restore_models()
+
+
+def expected_rows(start_sig, seq, names, start_rows):
+    """Reference data-flow of a sequence on the rows present before it (C02):
+    which source cell must land in which target cell, what added columns hold,
+    which NULLs get replaced.  Works on abstract names; returns
+    {abstract table: [row dict keyed by abstract field]} or None when a step is
+    outside the reference (type changes that alter values are skipped)."""
+    from ..absmodel import initial_for
+    sig = json.loads(json.dumps(norm_sig(start_sig)))
+    rows = {mn: [dict(r) for r in start_rows.get(mn, [])] for mn in sig}
+    for mu in seq:
+        k = mu['k']
+        if k == 'Add':
+            if mu['ftype'] == 'M2M':
+                continue
+            init = initial_for(mu['ftype'], mu['init'])
+            for r in rows[mu['m']]:
+                r[mu['f']] = init
+            sig[mu['m']]['fields'][mu['f']] = {'ftype': mu['ftype'], 'attrs': dict(as_dict(mu['attrs'])), 'rel': NONE}
+        elif k == 'Del':
+            for r in rows[mu['m']]:
+                r.pop(mu['f'], None)
+            sig[mu['m']]['fields'].pop(mu['f'], None)
+        elif k == 'RenF':
+            for r in rows[mu['m']]:
+                if mu['of'] in r:
+                    r[mu['nf']] = r.pop(mu['of'])
+            sig[mu['m']]['fields'][mu['nf']] = sig[mu['m']]['fields'].pop(mu['of'])
+        elif k == 'Chg':
+            f = sig[mu['m']]['fields'][mu['f']]
+            attrs = as_dict(mu['attrs'])
+            was_null = bool(f['attrs'].get('null', False))
+            if mu['ftype'] != NONE and mu['ftype'] != f['ftype']:
+                f['ftype'] = mu['ftype']
+                f['attrs'] = dict(attrs)
+            else:
+                f['attrs'].update(attrs)
+            if attrs.get('null') is False and was_null and mu['init'] != NONE:
+                init = initial_for(f['ftype'], mu['init'])
+                for r in rows[mu['m']]:
+                    if r.get(mu['f']) is None:
+                        r[mu['f']] = init
+        elif k == 'RenM':
+            rows[mu['nm']] = rows.pop(mu['om'])
+            sig[mu['nm']] = sig.pop(mu['om'])
+        elif k == 'DelM':
+            rows.pop(mu['m'], None)
+            sig.pop(mu['m'], None)
+    return rows, sig
+
+
+def _cell_equal(a, b):
+    if a is None or b is None:
+        return a is None and b is None
+    if isinstance(a, bool):
+        a = int(a)
+    if isinstance(b, bool):
+        b = int(b)
+    if a == b:
+        return True
+    return str(a) == str(b)          # retyped columns: compare modulo affinity
+
+
+def rows_vs_expected(snap, expected, final_sig, names):
+    """Compare real rows with the reference; returns list of differences."""
+    from ..absmodel import norm_sig as _ns
+    out = []
+    final = _ns(final_sig)
+    for mn, rows in expected.items():
+        if mn not in final:
+            continue
+        table = names.table(final[mn]['table']) if final[mn]['table'].startswith('t_') else final[mn]['table']
+        real = (snap['tables'].get(table) or {}).get('rows')
+        if real is None:
+            out.append({'table': table, 'kind': 'table-missing'})
+            continue
+        if len(real) != len(rows):
+            out.append({'table': table, 'kind': 'row-count', 'expected': len(rows), 'real': len(real)})
+            continue
+        real_by_id = {r.get('id'): r for r in real}
+        for r in rows:
+            rr = real_by_id.get(r.get('id'))
+            if rr is None:
+                out.append({'table': table, 'kind': 'row-lost', 'id': r.get('id')})
+                continue
+            for fn, v in r.items():
+                fs = final[mn]['fields'].get(fn)
+                if fs is None or fs['ftype'] == 'M2M':
+                    continue
+                col = as_dict(fs['attrs']).get('db_column') or (
+                    names.field(fn) + ('_id' if fs['ftype'] in ('FK', 'O2O') else ''))
+                if col not in rr:
+                    out.append({'table': table, 'kind': 'column-missing', 'column': col})
+                    break
+                if not _cell_equal(rr[col], v):
+                    out.append({'table': table, 'kind': 'cell', 'column': col, 'id': r.get('id'),
+                                'expected': v, 'real': rr[col]})
+    return out
+
+
+def start_rows_of(rig):
+    """Rows of the template database keyed by abstract model/field names."""
+    snap = rig.snapshot(rig.template)
+    names = rig.names
+    out = {}
+    for mn, ms in rig.start_sig.items():
+        table = names.table(ms['table'])
+        rows = []
+        for r in (snap['tables'].get(table) or {}).get('rows') or []:
+            row = {}
+            for fn, fs in ms['fields'].items():
+                if fs['ftype'] == 'M2M':
+                    continue
+                col = as_dict(fs['attrs']).get('db_column') or (
+                    names.field(fn) + ('_id' if fs['ftype'] in ('FK', 'O2O') else ''))
+                row[fn] = r.get(col)
+            rows.append(row)
+        out[mn] = rows
+    return out
+
+
+def observe(rec, start_sig, names_idx=0, split='single', with_evolver=True,
+            with_fresh=False):
     """Run one abstract sequence through the pipelines; return observations."""
     from .. import rig as R
     rig = _get_rig(start_sig, names_idx)
@@ -96,6 +252,7 @@ def observe(rec, start_sig, names_idx=0, split='single', with_evolver=True):
     seq = [norm_mutation(m) for m in rec['seq']]
     obs = {'n': len(seq), 'names': names_idx, 'split': split}
     paths = []
+    snaps = {}
     try:
         # (i) reference
         p = rig.fresh_copy('ref')
@@ -109,6 +266,7 @@ def observe(rec, start_sig, names_idx=0, split='single', with_evolver=True):
             ref_sig = ref['sig']
             obs['final_ref'] = project_sig(ref_sig, names)
             snap_ref = rig.snapshot(p)
+            snaps['ref'] = snap_ref
             obs['ref_fk_check'] = snap_ref['fk_check']
             obs['ref_integrity'] = snap_ref['integrity']
             obs['rebuilds_ref'] = R.rebuilds_per_table(st_ref)
@@ -131,6 +289,7 @@ def observe(rec, start_sig, names_idx=0, split='single', with_evolver=True):
             if not ok or not obs['bat_sig_eq']:
                 obs['bat_diff'] = [d1, d2, project_sig(bat['sig'], names)]
             snap = rig.snapshot(p)
+            snaps['bat'] = snap
             sd = diff_schema(schema_of(snap_ref), schema_of(snap))
             obs['bat_schema_diff'] = sd
             obs['bat_rows_eq'] = _rows(snap_ref) == _rows(snap) if not sd else None
@@ -158,11 +317,51 @@ def observe(rec, start_sig, names_idx=0, split='single', with_evolver=True):
                 if not ok or not obs['evo_sig_eq']:
                     obs['evo_diff'] = [d1, d2, project_sig(evo['sig'], names)]
                 snap = rig.snapshot(p)
+                snaps['evo'] = snap
                 sd = diff_schema(schema_of(snap_ref), schema_of(snap))
                 obs['evo_schema_diff'] = sd
                 obs['evo_rows_eq'] = _rows(snap_ref) == _rows(snap) if not sd else None
                 obs['rebuilds_evo'] = R.rebuilds_per_table(
                     [s for s in st_evo if 'TEMP_TABLE' in s[0]])
+        if with_fresh:
+            # batched run when the reference run was rejected but batched accepted
+            if 'bat' not in snaps and obs.get('bat', {}).get('ok'):
+                snaps['bat'] = rig.snapshot(paths[1])
+            final_sig = rec.get('final')
+            fresh, available, why = fresh_oracle(rig, final_sig)
+            obs['oracle_available'] = available
+            obs['oracle_why'] = why
+            if available:
+                fs = schema_of(fresh['proj'])
+                for which, snap in snaps.items():
+                    obs['fresh_diff_' + which] = diff_schema(fs, schema_of(snap))
+                    obs['fk_check_' + which] = snap['fk_check']
+                    obs['integrity_' + which] = snap['integrity']
+                # the real final signature must describe the same models
+                try:
+                    real_sig = None
+                    if obs.get('bat', {}).get('ok'):
+                        real_sig = bat['sig']
+                    elif ref.get('ok'):
+                        real_sig = ref['sig']
+                    if real_sig is not None:
+                        app_sig = real_sig.get_app_sig(names.app)
+                        mismatch = []
+                        for mn, msig in fresh['sigs'].items():
+                            rs = app_sig.get_model_sig(names.model(mn))
+                            if rs is None or rs.diff(msig) or msig.diff(rs):
+                                mismatch.append(mn)
+                        obs['sig_vs_models_mismatch'] = mismatch
+                except Exception as e:
+                    obs['sig_vs_models_mismatch'] = ['error: %s' % e]
+            # rows (C02)
+            try:
+                srows = start_rows_of(rig)
+                exp, _sig = expected_rows(start_sig, seq, names, srows)
+                for which, snap in snaps.items():
+                    obs['rows_diff_' + which] = rows_vs_expected(snap, exp, final_sig, names)
+            except Exception as e:
+                obs['rows_error'] = traceback.format_exc(limit=4)
     except Exception as e:
         obs['harness_error'] = traceback.format_exc(limit=10)
     finally:
@@ -179,10 +378,11 @@ def observe(rec, start_sig, names_idx=0, split='single', with_evolver=True):
 # parallel driver
 
 def _worker(job):
-    idx, rec, start_sig, names_idx, split, with_evolver = job
+    idx, rec, start_sig, names_idx, split, with_evolver = job[:6]
+    with_fresh = job[6] if len(job) > 6 else False
     with warnings.catch_warnings():
         warnings.simplefilter('ignore')
-        return idx, observe(rec, start_sig, names_idx, split, with_evolver)
+        return idx, observe(rec, start_sig, names_idx, split, with_evolver, with_fresh)
 
 
 def _init_worker():
@@ -316,4 +516,87 @@ def c18_failures(rec, obs, names):
         if seq and kinds_ok and one_model and not m2m and sum(rb.values()) > 1:
             out.append(('mergeable-run-rebuilt-twice',
                         {'pipeline': which, 'rebuilds': rb}))
+    return out
+
+
+# ---------------------------------------------------------------------------
+# C01 / C02 judges (Schema.tla records, with_fresh observations)
+
+def abstract_fresh_vs_real(spec_fresh, fresh_proj, names):
+    """Binding of Schema!Fresh: the abstract schema TLC computed for the final
+    signature vs what Django really created.  Returns list of differences."""
+    out = []
+    real = schema_of(fresh_proj)
+    want_tables = {}
+    for t, info in as_dict(spec_fresh).items():
+        want_tables[names.table(t) if t.startswith('t_') else t] = info
+
+    def col(c):
+        # abstract column names are abstract field names (+ "_id")
+        base, suffix = (c[:-3], '_id') if c.endswith('_id') and c[:-3] in names.fields else (c, '')
+        return names.fields.get(base, base) + suffix
+    for t, info in want_tables.items():
+        if t not in real:
+            out.append({'table': t, 'kind': 'table-missing-in-django'})
+            continue
+        rc = real[t]['columns']
+        wc = {col(c['n']): c for c in info['cols']}
+        if set(wc) != set(rc):
+            out.append({'table': t, 'kind': 'columns', 'spec': sorted(wc), 'django': sorted(rc)})
+            continue
+        for name, c in wc.items():
+            if bool(c['null']) == rc[name]['notnull'] and not rc[name]['pk']:
+                out.append({'table': t, 'kind': 'null', 'column': name})
+            if bool(c['pk']) != rc[name]['pk']:
+                out.append({'table': t, 'kind': 'pk', 'column': name})
+        widx = sorted([[col(x) for x in ix[0]], bool(ix[1])] for ix in info['idx'])
+        ridx = sorted([[x.split(' ')[0] for x in ix[0]], bool(ix[1])] for ix in real[t]['indexes'])
+        if widx != ridx:
+            out.append({'table': t, 'kind': 'indexes', 'spec': widx, 'django': ridx})
+        wfk = sorted([col(x[0]), names.table(x[1]) if x[1].startswith('t_') else x[1]]
+                     for x in info['fks'])
+        rfk = sorted([c, v[0]] for c, v in real[t]['fks'].items())
+        if wfk != rfk:
+            out.append({'table': t, 'kind': 'fks', 'spec': wfk, 'django': rfk})
+    for t in real:
+        if t not in want_tables:
+            out.append({'table': t, 'kind': 'table-extra-in-django'})
+    return out
+
+
+def c01_failures(rec, obs):
+    out = []
+    if not obs.get('oracle_available') or obs.get('sig_vs_models_mismatch'):
+        return out, False
+    for which in ('ref', 'bat', 'evo'):
+        run = obs.get(which)
+        if not run:
+            continue
+        if not run.get('ok'):
+            if run.get('stage') in ('execute',) or (
+                    which == 'evo' and (run.get('error') or '').startswith('EvolutionExecutionError')):
+                out.append(('accepted-evolution-failed-to-execute', which, run.get('error'), []))
+            continue
+        diff = obs.get('fresh_diff_' + which)
+        if diff:
+            kinds = sorted(set(d['kind'] for d in diff))
+            out.append(('schema-differs-from-fresh', which, diff, kinds))
+        if obs.get('fk_check_' + which):
+            out.append(('foreign-key-check-failed', which, obs['fk_check_' + which], []))
+        integ = obs.get('integrity_' + which)
+        if integ and integ != ['ok']:
+            out.append(('integrity-check-failed', which, integ, []))
+    return out, True
+
+
+def c02_failures(rec, obs):
+    out = []
+    for which in ('ref', 'bat', 'evo'):
+        run = obs.get(which)
+        if not run or not run.get('ok'):
+            continue
+        diff = obs.get('rows_diff_' + which)
+        if diff:
+            kinds = sorted(set(d['kind'] for d in diff))
+            out.append(('rows-differ-from-reference', which, diff[:6], kinds))
     return out
